@@ -346,7 +346,23 @@ pub fn run_op<F: Future>(world: &Shared, mut fut: Pin<&mut F>, opts: OpOpts, pen
                                 if vtime::now() != from {
                                     world.borrow_mut().ev(Ev::Time { from, to: vtime::now() });
                                 }
+                                let before = world.borrow().conns.last().map(|c| c.in_enq).unwrap_or(0);
                                 world.borrow_mut().deliver_due();
+                                // a sluggish executor polls the woken task only a while later
+                                let (delay, arrived) = {
+                                    let w = world.borrow();
+                                    (w.wake_delay_us, w.conns.last().map(|c| c.in_enq).unwrap_or(0) > before)
+                                };
+                                if delay > 0 && arrived {
+                                    let from = vtime::now();
+                                    vtime::advance_to(from.saturating_add(delay).min(opts.deadline.max(from)));
+                                    if vtime::now() != from {
+                                        let mut w = world.borrow_mut();
+                                        let conn = w.conns.len() - 1;
+                                        w.ev(Ev::Time { from, to: vtime::now() });
+                                        w.ev(Ev::LateWake { conn, from, to: vtime::now() });
+                                    }
+                                }
                             }
                         }
                     }
@@ -783,6 +799,7 @@ impl<'d> Exec<'d> {
                         BrokerAct::SendRaw(b) => w.send_raw(cidx, b),
                         BrokerAct::Close => w.conns[cidx].close_after_drain = true,
                         BrokerAct::Policy(p) => w.conns[cidx].broker = p,
+                        BrokerAct::WakeDelay(us) => w.wake_delay_us = us,
                         BrokerAct::WriteGate { after, blocks } => {
                             let c = &mut w.conns[cidx];
                             let offset = c.out.bytes.len() + after;
